@@ -819,6 +819,9 @@ func (ctx *Context) evaluate() {
 				}
 				outStr += val.ToString()
 			}
+			if !ctx.chargeBytes(len(outStr)) {
+				return
+			}
 
 			e.top -= num
 			stack[e.top].TypeId = VMTypeString
